@@ -32,9 +32,12 @@ State *S;
 bool do_lock(LockObj &L, int li) {
   L.inflight++; L.epoch++;
   pboolean r;
+  int f0 = shim::mutex_lock_failures[cur()->id];
   if (L.is_spin) r = HX_API("p_spinlock_lock", li, false, p_spinlock_lock(L.s));
   else r = HX_API("p_mutex_lock", li, false, p_mutex_lock(L.m));
   L.inflight--;
+  // the native lock call was made to fail inside this call: FALSE is the honest answer and the caller must stay outside
+  if (!r && shim::mutex_lock_failures[cur()->id] != f0) { probe("lock.native_lock_failed_reported"); return false; }
   if (!r) violate("lock_returned_false", L.is_spin ? "p_spinlock_lock" : "p_mutex_lock", "lock call returned FALSE on a valid object");
   return true;
 }
@@ -84,7 +87,7 @@ void task_body(int ti) {
     LockObj &L = S->locks[st.lock];
     switch (st.kind) {
     case S_LOCK:
-      do_lock(L, st.lock); entered(L, st.lock); body(L, st.lock); do_unlock(L, st.lock);
+      if (do_lock(L, st.lock)) { entered(L, st.lock); body(L, st.lock); do_unlock(L, st.lock); }
       break;
     case S_TRY:
       if (do_try(L, st.lock)) { entered(L, st.lock); body(L, st.lock); do_unlock(L, st.lock); }
@@ -92,10 +95,11 @@ void task_body(int ti) {
     case S_LOCK_NESTED: {
       // lock st.lock then the next higher lock (index order => no lock-order inversion)
       int hi = st.lock + 1;
-      do_lock(L, st.lock); entered(L, st.lock); body(L, st.lock);
+      if (!do_lock(L, st.lock)) break;
+      entered(L, st.lock); body(L, st.lock);
       if (hi < (int)S->locks.size()) {
         LockObj &H = S->locks[hi];
-        do_lock(H, hi); entered(H, hi); body(H, hi); do_unlock(H, hi);
+        if (do_lock(H, hi)) { entered(H, hi); body(H, hi); do_unlock(H, hi); }
         probe("lock.nested");
       }
       do_unlock(L, st.lock);
@@ -158,8 +162,11 @@ void root() {
     }
     describe("]");
   }
+  // a native lock call that fails (resource shortage): the library call reports FALSE and the caller is not a holder
+  if (gen(16) == 0) { shim::fail_mutex_lock_kth = 1 + (int)gen(12); describe(" native-lock-failure#%d", shim::fail_mutex_lock_kth); }
   for (int t = 0; t < nt; t++) spawn(0, [t]() { task_body(t); });
   wait_all_others();
+  shim::fail_mutex_lock_kth = 0;      // the fault belongs to the scripts: the wind-down below is fault-free
   for (int i = 0; i < nl; i++) {
     LockObj &L = st.locks[i];
     SIM_READ(L.counter);
